@@ -525,6 +525,23 @@ impl Scenario for RomLoadFaults {
                                     out.push(Violation::new("C19", "C19/sizing/ram-buffer".to_string(), format!("type {:#04x}, RAM size code {:#04x}: the core has {} bytes of cartridge RAM, the table says {}", b.header[0x47], b.header[0x49], ram_len, want_ram)));
                                 }
                                 ctx.cov.hit("probe.inprocess_buffer_sizes_checked");
+                                // ... and the controller of the declared type: a short fixed register protocol (bank numbers that
+                                // wrap to the image size, upper bits, mode, RAM bank) must select the banks the header's type,
+                                // ROM size and RAM size define
+                                let mut rm = crate::model::mbc::RefMbc::new(b.header[0x47], b.declared_len / 0x4000, want_ram);
+                                for (a, v) in [(0x2000u16, 2u8), (0x2100, 3), (0x3fff, 0), (0x4000, 1), (0x6000, 1), (0x4000, 3), (0x2000, 0x21), (0x6000, 0), (0x2000, 0x7f), (0x4000, 2)] {
+                                    mm.write(a, v);
+                                    rm.write(a, v);
+                                    if mm.rom_bank() != rm.rom_bank() {
+                                        out.push(Violation::new("C19", "C19/controller/rom-bank".to_string(), format!("type {:#04x}, ROM size code {:#04x}: after writing {:#04x} to {:#06x} bank {} is mapped at 0x4000, the declared controller maps {}", b.header[0x47], b.header[0x48], v, a, mm.rom_bank(), rm.rom_bank())));
+                                        break;
+                                    }
+                                    if want_ram > 0 && mm.ram_bank() != rm.ram_bank() {
+                                        out.push(Violation::new("C19", "C19/controller/ram-bank".to_string(), format!("type {:#04x}, RAM size code {:#04x}: after writing {:#04x} to {:#06x} RAM bank {} is selected, the declared controller selects {}", b.header[0x47], b.header[0x49], v, a, mm.ram_bank(), rm.ram_bank())));
+                                        break;
+                                    }
+                                }
+                                ctx.cov.hit("probe.inprocess_controller_protocol_checked");
                             }
                         }
                     }
@@ -533,6 +550,33 @@ impl Scenario for RomLoadFaults {
             }
         }
         let _ = std::fs::remove_file(&path2);
+        // ---- controller of the declared type, round-robin over every (type, ROM size 32-256 KiB, RAM size) combination:
+        // a well-formed image is loaded the production way and a fixed register protocol is compared with the reference
+        // controller of that header (the file-fault cases above only rarely yield an accepted MBC image of a given size)
+        {
+            let combo = case.index as usize % (7 * 4 * 6);
+            let (t, rc, mc) = (crate::cart::CART_TYPES[combo % 7], [0u8, 1, 2, 3][(combo / 7) % 4], crate::cart::RAM_CODES[combo / 28]);
+            let mut c = Case::new("rom_load_faults", 0, 0);
+            c.set("cart_type", t as i64);
+            c.set("rom_code", rc as i64);
+            c.set("ram_code", mc as i64);
+            c.set("rom_fill", 0);
+            c.set("ramfill", 0);
+            if let Ok((_img, mut reps)) = crate::setup::replicas(&c, &[false]) {
+                let mm = reps[0].as_mut();
+                let want_ram = if t == 0x02 || t == 0x03 || t == 0x12 || t == 0x13 { refh::ram_bytes(mc).unwrap_or(0) } else { mm.cram().len() };
+                let mut rm = crate::model::mbc::RefMbc::new(t, crate::cart::rom_banks(rc), want_ram);
+                for (a, v) in [(0x2000u16, 2u8), (0x2100, 3), (0x3fff, 0), (0x4000, 1), (0x6000, 1), (0x4000, 3), (0x2000, 0x21), (0x6000, 0), (0x2000, 0x7f), (0x4000, 2), (0x2000, 4)] {
+                    mm.write(a, v);
+                    rm.write(a, v);
+                    if mm.rom_bank() != rm.rom_bank() {
+                        out.push(Violation::new("C19", "C19/controller/rom-bank".to_string(), format!("type {:#04x}, ROM size code {:#04x}: after writing {:#04x} to {:#06x} bank {} is mapped at 0x4000, the declared controller maps {}", t, rc, v, a, mm.rom_bank(), rm.rom_bank())));
+                        break;
+                    }
+                }
+                ctx.cov.hit("probe.inprocess_controller_protocol_checked");
+            }
+        }
         out
     }
 }
